@@ -1419,6 +1419,11 @@ func (c *SpecCtx) evalCall(x *ast.CallExpr) (Val, types.Type) {
 					oldH = c.oldHeaps(h, srt)
 				}
 				cur := c.heaps(h, srt)
+				if strings.HasPrefix(h, "G!") {
+					// a ghost map is total: every index other than ref keeps its value
+					cs = append(cs, Forall([]*Term{y}, Implies(Neq(y, ref), Eq(Select(cur, y), Select(oldH, y))), []*Term{Select(cur, y)}))
+					continue
+				}
 				cs = append(cs, Forall([]*Term{y}, Implies(And(Allocd(c.old.alloc, y), Neq(App("rroot", SInt, y), App("rroot", SInt, ref))), Eq(Select(cur, y), Select(oldH, y))), []*Term{Select(cur, y)}))
 			}
 		}
@@ -1628,6 +1633,7 @@ func (c *SpecCtx) callPred(pf *PureFn, pkg *types.Package, vs map[string]*specVa
 	declFun(sym, SBool, sorts...)
 	app := App(sym, SBool, qs...)
 	funAxioms[sym] = []*Term{Forall(qs, mk("=", SBool, app, body), []*Term{app})}
+	predDefs[sym] = &predDef{qs: qs, body: body}
 	return App(sym, SBool, args...)
 }
 
@@ -1791,3 +1797,12 @@ func (e *Exec) applySets(st *State, c *Contract, post *SpecCtx) {
 		post.heaps = st.heap
 	}
 }
+
+// predDefs: definition of each predicate symbol, for the one-level unfolding of
+// assumed predicate applications (exec.go unfoldAssumed)
+type predDef struct {
+	qs   []*Term
+	body *Term
+}
+
+var predDefs = map[string]*predDef{}
